@@ -378,6 +378,19 @@ func (c *Connection) JoinRoom(roomName string) {
 	c.roomsMu.Lock()
 	c.rooms[roomName] = true
 	c.roomsMu.Unlock()
+
+	// The connection may have been unregistered while it was joining; the hub
+	// has then already swept the rooms, so undo the join.
+	c.sendMu.RLock()
+	closed := c.sendClosed
+	c.sendMu.RUnlock()
+	if closed {
+		rm.RemoveConnectionFromRoom(c, roomName)
+		c.roomsMu.Lock()
+		delete(c.rooms, roomName)
+		c.roomsMu.Unlock()
+		return
+	}
 	log.Printf("[WS] Connection %s joined room %s", c.ID, roomName)
 }
 
